@@ -84,6 +84,10 @@ def check(crate, sm, body):
                   expected=want2, found=hs2 if hs2 is not None else show(src)[:120]))
     gf = f.guard
     want_g = [sorted(["is(%s; Block)" % blocks, "%s↓Block.unchecked" % blocks])]
+    # `node.statement()?` instead of `.unwrap()`: what a search for blocks returns are statements (R01.tables: only a statement has the kind Block), so the
+    # test whether it is one always succeeds
+    if gf and len(gf) == 1:
+        gf = [sorted(a for a in gf[0] if a != "is(maybe(%s); Some)" % blocks)]
     obs.append(Ob("R05.incdec", fn, "only statements of unchecked blocks feed the exemption set", gf == want_g, expected=S.guard_str(want_g), found=S.guard_str(gf)))
     # the exemption set is complete before it is consulted
     obs.append(Ob("R05.incdec", fn, "the exemption set is complete before candidates are filtered", body.dominates(f.bb, i.bb) is False and not body.reaches(i.bb, f.bb)
